@@ -27,6 +27,7 @@ RULE = (
 ASSUMPTIONS = ["the mutating functions are ours; expectations are computed from the spec, never from a first run"]
 DECIDING = ["runs_checked", "defaults_checked", "identity_checked"]
 THOROUGH_SHARDS = 12
+REPLAY_BY_SEED = True  # histories are regenerated from the seed; see main.py
 
 
 _Stats = collections.namedtuple("_Stats", ["seen", "total"])
